@@ -116,7 +116,7 @@ class C05(Prop):
             "non-trivial = container with >= 2 members, or a string needing an escape, or a non-integer number; distinct by tree hash")
     ASSUMPTIONS = ["only the C locale exists in this sandbox: the decimal-point substitution code is exercised with '.' only",
                    "Python's json (strict=True, constants rejected) and the recogniser are the independent strict parsers"]
-    REQUIRED_CLASSES = ["container>=2", "escape_needed", "non_integer_number", "non_finite_number", "int_range_integer", "control_char", "non_bmp"]
+    REQUIRED_CLASSES = ["container>=2", "escape_needed", "non_integer_number", "non_finite_number", "int_range_integer", "control_char", "non_bmp", "depth>=17"]
 
     def budget(self, tier):
         return {"workers": 12, "examples": 2000 if tier == "quick" else 10000}
@@ -128,9 +128,11 @@ class C05(Prop):
         strings = st.one_of(gens.utf8_strings(10), gens.escapey_strings(), gens.utf8_strings(3))
         leaves = gens.scalars_built(strings=strings, numbers=numbers)
         keys = st.one_of(gens.utf8_strings(5), gens.ascii_keys(3), gens.escapey_strings(4))
+        deep = st.tuples(st.sampled_from(["[", "{", "[{", "{[", "{{["]), st.sampled_from([15, 16, 17, 18, 31, 32, 33, 40, 64, 65, 128, 300]), leaves).map(
+            lambda t: model.expand(["D", t[0], t[1], t[2]]))
         tree = st.one_of(gens.shaped_documents(leaves, keys, max_leaves=16, min_leaves=2),
                          gens.shaped_documents(leaves, keys, max_leaves=5),
-                         leaves)
+                         leaves, deep)
         return st.fixed_dictionaries({"jv": tree, "rseed": st.integers(0, 2 ** 31)})
 
     def run_case(self, lib, case, stats):
@@ -154,6 +156,8 @@ class C05(Prop):
                     classes.add("container>=2")
             if n[0] == "A" and len(n[1]) >= 2:
                 classes.add("container>=2")
+        if model.depth_of(jv) >= 17:
+            classes.add("depth>=17")
             for s in strs:
                 if any(c < 0x20 or c in (0x22, 0x5C) for c in s):
                     classes.add("escape_needed")
